@@ -20,7 +20,7 @@ EXPLANATION = (
     "the two appends, both after the item finished) and the returned results pass through a sort keyed by that index; the unbounded branch returns "
     "the gather result of tasks built by iterating the variations in order; (R3) the sync map runs and appends in iteration order and, like the "
     "collectors, raises the first failed item's own error object; (R4) zip expansion indexes every mapped list with the same increasing index after "
-    "an equal-length check, product expansion is itertools.product over the lists in map_over order. (R6) clone: the copy helper returns copy.deepcopy(value) on every normal path (no type-based shortcut), clone=True passes every broadcast value and clone=[names] exactly the listed ones through it, and the copies are made inside the per-item loops; (R5) a mapping graph node's executor forwards every translated input to the nested map unchanged, dropping exactly the values that *are* the inner graph's own bound objects (truth table of the comprehension filter over 'key bound' x 'same object'). R1 also requires that under 'item FAILED and mode is not raise' every reachable append stores the constant None (partial values of a failed item are not results)."
+    "an equal-length check, product expansion is itertools.product over the lists in map_over order. (R7) every option map() shares with run() (select, on_missing, on_internal_override, entrypoint, max_concurrency, event_processors) is forwarded to the per-item run under its own name and is not rebound in map(); (R6) clone: the copy helper returns copy.deepcopy(value) on every normal path (no type-based shortcut), clone=True passes every broadcast value and clone=[names] exactly the listed ones through it, and the copies are made inside the per-item loops; (R5) a mapping graph node's executor forwards every translated input to the nested map unchanged, dropping exactly the values that *are* the inner graph's own bound objects (truth table of the comprehension filter over 'key bound' x 'same object'). R1 also requires that under 'item FAILED and mode is not raise' every reachable append stores the constant None (partial values of a failed item are not results)."
 )
 NOT_DECIDED = "That each item's result equals the single run on that combination, and the values produced by zip/product expansion (statements about computed data)."
 
@@ -31,6 +31,7 @@ def run(ctx) -> None:
     rep.rule("C10.R2", "bounded async map restores input order from an atomically paired index list", floor=3)
     rep.rule("C10.R3", "sync map keeps iteration order; first failing item's own error is raised", floor=3)
     rep.rule("C10.R4", "zip/product expansion enumerate combinations in input order", floor=3)
+    rep.rule("C10.R7", "each item is a single run under the caller's options: map forwards every option it shares with run unchanged", floor=10)
     rep.rule("C10.R6", "clone: every cloned broadcast value is a fresh deep copy per item, whatever its type", floor=4)
     rep.rule("C10.R5", "a mapping graph node forwards every supplied input to the nested map (only the inner graph's own bound objects are left to be resolved inside)", floor=2)
 
@@ -156,6 +157,24 @@ def run(ctx) -> None:
                     okf = okf and dead_when_false(atoms_mode)
                 rep.add("C10.R3", f"{f.qname}:first-failure@{_k(f, n)}", okf, f"{f.module.rel}:{n.lineno}", "raises the first FAILED item's own error, scanning in input order" if okf else "the raised error is not the first failed item's in input order")
 
+    # ---- R7 ---------------------------------------------------------------------
+    REBOUND = {"error_handling": "items always collect their error (the map applies the caller's mode itself)", "_parent_span_id": "items are parented to the map span", "input_values": "keyword inputs are merged into the variations", "values": "replaced by the item's variation", "graph": "positional"}
+    for mp_ in template_methods(db, "map"):
+        run_ = [r_ for r_ in template_methods(db, "run") if r_.is_async == mp_.is_async][0]
+        calls = [c for c in ast.walk(mp_.node) if isinstance(c, ast.Call) and isinstance(c.func, ast.Attribute) and c.func.attr == "run" and src(c.func.value) == "self"]
+        if not calls:
+            raise AnalysisError(f"{mp_.qname}: per-item run call not found")
+        for c in calls:
+            kw = {k.arg: k.value for k in c.keywords}
+            okg = bool(c.args) and src(c.args[0]) == "graph" and len(c.args) >= 2
+            rep.add("C10.R7", f"{mp_.qname}:item-run:graph-and-variation", okg, f"{mp_.module.rel}:{c.lineno}", "items run the same graph on their own variation" if okg else "the per-item run does not receive (graph, <variation>)")
+            for p_ in mp_.param_names:
+                if p_ == "self" or p_ not in run_.param_names or p_ in REBOUND:
+                    continue
+                v = kw.get(p_)
+                ok = isinstance(v, ast.Name) and v.id == p_ and len(db.local_defs(mp_).get(p_, [])) == 0
+                rep.add("C10.R7", f"{mp_.qname}:item-run:{p_}", ok, f"{mp_.module.rel}:{c.lineno}", f"'{p_}' reaches every item unchanged" if ok else f"'{p_}' is {'not forwarded' if v is None else 'forwarded as ' + src(v)} to the per-item run: a mapped item no longer equals the single run with the caller's options")
+
     # ---- R6 ---------------------------------------------------------------------
     cv = db.func("runners._shared.helpers._clone_value")
     rets = [n for n in walk_local(cv.node) if isinstance(n, ast.Return)]
@@ -186,6 +205,9 @@ def run(ctx) -> None:
     from .c18 import check_nested_map_inputs
 
     check_nested_map_inputs(ctx, "C10.R5")
+    from .c18 import check_no_broadcast_defaults
+
+    check_no_broadcast_defaults(ctx, "C10.R5")
 
     # ---- R4 ---------------------------------------------------------------------
     gz = db.func("runners._shared.helpers._generate_zip_inputs")
@@ -301,6 +323,7 @@ HP = "src/hypergraph/runners/_shared/helpers.py"
 TA = "src/hypergraph/runners/_shared/template_async.py"
 TS = "src/hypergraph/runners/_shared/template_sync.py"
 VARIANTS = [
+    Variant("map-drops-entrypoint", "src/hypergraph/runners/_shared/template_sync.py", sub_first(r"(                    on_internal_override=on_internal_override,\n)                    entrypoint=entrypoint,\n", r"\1"), {"C10.R7"}),
     Variant("clone-once-for-all-items", "src/hypergraph/runners/_shared/helpers.py", sub_first(r"(\n    for [^\n]*:\n(?:        [^\n]*\n)*?        yield \{\n(?:            [^\n]*\n)*?)            \*\*_maybe_clone_broadcast\(broadcast_values, clone\),", r"\1            **broadcast_values,"), {"C10.R6"}),
     Variant("failed-item-partial-values", "src/hypergraph/runners/_shared/helpers.py", replace_once("            # Continue mode: use None placeholders to preserve list length\n            for name in node.outputs:\n                collected[name].append(None)\n            continue\n", ""), {"C10.R1"}),
     Variant("nested-map-drops-overriding-broadcast", "src/hypergraph/runners/sync/executors/graph_node.py", replace_once("if not (k in inner_bound and v is inner_bound[k])}", "if k not in inner_bound}"), {"C10.R5"}),
